@@ -589,6 +589,17 @@ fn main() {
                 Scenario::parse(&text).expect("scenario parses")
             };
             println!("build {BUILD}");
+            // `--prelude <verif_seed> <first> <index>`: what this worker had executed before, in the same process
+            // (a difference that needs state left behind by earlier scenarios shows only after them)
+            if let Some(k) = args.iter().position(|a| a == "--prelude") {
+                let n = |j: usize| args.get(k + j).and_then(|x| x.parse::<u64>().ok()).unwrap_or(0);
+                let (vs, first, idx) = (n(1), n(2), n(3));
+                for j in first..idx {
+                    let psc = gen::generate("C19", seed_for("C19", vs, j));
+                    let _ = exec_scenario(&psc, |_, _, _| {});
+                }
+                println!("prelude {first}..{idx}");
+            }
             let (hc, ha, v) = exec_scenario(&sc, |i, op, o| {
                 if let Some(c) = &o.core {
                     println!("op {i} core {:016x} {} => {}", prng::fnv(c.as_bytes()), op.text(), canon::short(c));
